@@ -57,6 +57,8 @@ CATALOGUE = [
     ("latest_lookup_deletes_whole_name", "C18", "project/project.py", '        result_name = re.sub(r"_run_\\d{4}$", "", result_name)\n        return self.get_result_path(result_name, latest=True)', '        result_name = re.sub(self._result_registry.result_pattern, "", result_name)\n        return self.get_result_path(result_name, latest=True)', 1),
     ("linked_results_in_aligned_order", "C03", "optimization/estimation_provider.py", "            order = np.argsort(dataset_indices)\n", "            order = np.arange(len(dataset_indices))\n", 1),
     ("is_linkable_reads_all_data", "C02", "model/dataset_group.py", "            if label not in self.dataset_models:\n", "            if False:\n", 1),
+    ("weight_transposed_by_shape", "C03", "optimization/optimization_group.py", "            if result_dataset.data.dims[0] != model_dimension:\n", "            if weight.shape != result_dataset.data.shape:\n", 1),
+    ("pfid_full_rate_vectors", "C07", "builtin/megacomplexes/pfid/pfid_megacomplex.py", "        (left_shifted_axis[:, None] - dk[neg_idx]) / -sqwidth\n", "        (left_shifted_axis[:, None] - dk[:]) / -sqwidth\n", 1),
     ("dof_without_clps", "C13", "optimization/optimizer.py", '                - result_args["number_of_clps"]\n', "", 1),
     ("rmse_not_sqrt", "C13", "optimization/optimizer.py", 'np.sqrt(result_args["reduced_chi_square"])', 'result_args["reduced_chi_square"]', 1),
     ("covariance_unmasked", "C13", "optimization/optimizer.py", "mask = jacobian_sv_square > np.finfo(float).eps", "mask = jacobian_sv_square > -1", 1),
